@@ -677,4 +677,299 @@ theorem lstep_measure {idx arr cache c ev a' ch' c'} (h : LStep idx arr cache c 
   cases h
   all_goals (try rcases toUnwind_eq _ with hu | hu <;> rw [hu])
   all_goals (simp [Caller.measure, Pc.rank, restWeight]; try omega)
+
+theorem set_self : ∀ (l : List Caller) (i : Nat) (c : Caller), l[i]? = some c → l.set i c = l := by
+  intro l
+  induction l with
+  | nil => intro i c h; simp at h
+  | cons a t ih =>
+    intro i c h
+    cases i with
+    | zero => simp at h; subst h; rfl
+    | succ n => simp at h; simp [ih n c h]
+
+theorem progress_core {idx : Nat → Nat} {s s' : St} {i : Nat} {ev : Ev} (hI : Inv idx s)
+    (h : step idx s i = some (ev, s')) :
+    (ev ≠ .spin → s'.measure < s.measure) ∧ (ev = .spin → s' = s) := by
+  obtain ⟨c, a', ch', c', hi, hc, rfl⟩ := step_iff.mp h
+  have hL := stepC_sound idx s.arr s.cache c c' ev a' ch' hc (hI.book i c hi) (hI.pc i c hi) (hI.stack i c hi)
+  have hm := lstep_measure hL
+  constructor
+  · intro hne
+    have := hm.1 hne
+    have hs := sumBy_set Caller.measure s.cs i c c' hi
+    simp only [St.measure]
+    omega
+  · intro he
+    obtain ⟨rfl, rfl, rfl⟩ := hm.2 he
+    rw [set_self s.cs i c' hi]
+
+/-- what each event says about the stepping caller and the inner cache -/
+theorem lstep_events {idx arr cache c ev a' ch' c'} (h : LStep idx arr cache c ev a' ch' c') (hp : pcOK cache c) :
+    (∀ k v, ev = .cget k v → k ∈ c.reads ∧ cache k = some v) ∧
+    (∀ k v, ev = .enter k v → k ∈ c.reads ∧ cache k = some v) ∧
+    (∀ k v, ev = .cpop k v → c.pc.writeKey = some k ∧ cache k = none ∧ ch' = upd cache k (some v)) ∧
+    (∀ k, ev = .cpopFail k → c.pc.writeKey = some k ∧ cache k = none ∧ ch' = cache) ∧
+    (∀ k b, ev = .crmv k b → c.pc.writeKey = some k ∧ b = (cache k).isSome ∧ ch' = upd cache k none) ∧
+    (∀ k, evPop k ev + cachedN cache k = evRmv k ev + cachedN ch' k) := by
+  cases h
+  all_goals (simp [pcOK, Caller.reads, Pc.readKey, Pc.writeKey, evPop, evRmv] at hp ⊢)
+  all_goals (try simp_all)
+  case pop_ok k0 v0 _ _ _ _ =>
+    intro k
+    by_cases hk : k0 = k
+    · subst hk; simp [cachedN, upd, hp]
+    · have hk' : ¬ k = k0 := fun h => hk h.symm
+      simp [cachedN, upd, hk, hk']
+  case rmRemove k0 _ _ _ _ =>
+    intro k
+    by_cases hk : k0 = k
+    · subst hk
+      cases hc : cache k0 <;> simp [cachedN, upd, hc]
+    · have hk' : ¬ k = k0 := fun h => hk h.symm
+      cases hc : cache k0 <;> simp [cachedN, upd, hk, hk', hc]
+
+theorem reachable_run {idx : Nat → Nat} {progs : List (List (List Instr))} :
+    ∀ (sched : List Nat) (s : St), Reachable idx progs s → Reachable idx progs (run idx s sched).1 := by
+  intro sched
+  induction sched with
+  | nil => intro s h; exact h
+  | cons i is ih =>
+    intro s h
+    simp only [run]
+    cases hs : step idx s i with
+    | none => simpa [hs] using ih s h
+    | some r => obtain ⟨ev, s1⟩ := r; simpa [hs] using ih s1 (Reachable.step h hs)
+
+theorem step_balance {idx : Nat → Nat} {s s' : St} {i : Nat} {ev : Ev} (hI : Inv idx s)
+    (h : step idx s i = some (ev, s')) (k : Nat) :
+    evPop k ev + cachedN s.cache k = evRmv k ev + cachedN s'.cache k := by
+  obtain ⟨c, a', ch', c', hi, hc, rfl⟩ := step_iff.mp h
+  have hL := stepC_sound idx s.arr s.cache c c' ev a' ch' hc (hI.book i c hi) (hI.pc i c hi) (hI.stack i c hi)
+  exact (lstep_events hL (hI.pc i c hi)).2.2.2.2.2 k
+
+theorem single_flight_trace' {idx : Nat → Nat} (k : Nat) :
+    ∀ (sched : List Nat) (s : St), Inv idx s →
+      popCount k (run idx s sched).2 + cachedN s.cache k =
+        rmvCount k (run idx s sched).2 + cachedN (run idx s sched).1.cache k := by
+  intro sched
+  induction sched with
+  | nil => intro s _; simp [run, popCount, rmvCount]
+  | cons i is ih =>
+    intro s hI
+    simp only [run]
+    cases hs : step idx s i with
+    | none => simpa [hs] using ih s hI
+    | some r =>
+      obtain ⟨ev, s1⟩ := r
+      have h1 := ih s1 (inv_step hI hs)
+      have h2 := step_balance hI hs k
+      simp only [hs, popCount, rmvCount]
+      omega
+
+/-- all the step-level facts about one step of a reachable state, in one place -/
+theorem step_facts {idx : Nat → Nat} {s s' : St} {i : Nat} {ev : Ev} (hI : Inv idx s)
+    (h : step idx s i = some (ev, s')) :
+    ∃ c, s.cs[i]? = some c ∧
+      (∀ k v, ev = .cget k v → k ∈ c.reads ∧ s.cache k = some v) ∧
+      (∀ k v, ev = .enter k v → k ∈ c.reads ∧ s.cache k = some v) ∧
+      (∀ k v, ev = .cpop k v → c.pc.writeKey = some k ∧ s.cache k = none ∧ s'.cache = upd s.cache k (some v)) ∧
+      (∀ k, ev = .cpopFail k → c.pc.writeKey = some k ∧ s.cache k = none ∧ s'.cache = s.cache) ∧
+      (∀ k b, ev = .crmv k b → c.pc.writeKey = some k ∧ b = (s.cache k).isSome ∧ s'.cache = upd s.cache k none) := by
+  obtain ⟨c, a', ch', c', hi, hc, rfl⟩ := step_iff.mp h
+  have hL := stepC_sound idx s.arr s.cache c c' ev a' ch' hc (hI.book i c hi) (hI.pc i c hi) (hI.stack i c hi)
+  have := lstep_events hL (hI.pc i c hi)
+  exact ⟨c, hi, this.1, this.2.1, this.2.2.1, this.2.2.2.1, this.2.2.2.2.1⟩
+
+theorem locks_released_core {idx : Nat → Nat} {s : St} (hI : Inv idx s) (ht : s.allTerminal = true) :
+    (∀ i, s.arr i = 0) ∧ ∀ (j : Nat) (c : Caller), s.cs[j]? = some c → ∀ k, c.book k = 0 := by
+  have hterm : ∀ c ∈ s.cs, c.pc = .idle ∧ c.stack = [] := by
+    intro c hc
+    simp only [St.allTerminal, List.all_eq_true] at ht
+    exact terminal_pc (ht c hc)
+  constructor
+  · intro i
+    have hR : s.R idx i = 0 := by
+      apply sumBy_zero; intro c hc
+      simp [Caller.rc, Caller.reads, (hterm c hc).1, (hterm c hc).2, Pc.readKey]
+    have hW : s.W idx i = 0 := by
+      apply sumBy_zero; intro c hc
+      simp [Caller.wc, (hterm c hc).1, Pc.writeKey]
+    rcases hI.locks i with h | h <;> omega
+  · intro j c hj k
+    have hb := hI.book j c hj k
+    have := hterm c (List.mem_of_getElem? hj)
+    simpa [Caller.reads, this.1, this.2, Pc.readKey, Pc.writeKey] using hb
+
+theorem no_stuck_core {idx : Nat → Nat} {s : St} (hI : Inv idx s) {i : Nat} {c : Caller}
+    (hi : s.cs[i]? = some c) (hnt : c.terminal = false) : (step idx s i).isSome := by
+  have hsome := no_stuckC (idx := idx) (arr := s.arr) (hI.pc i c hi) hnt
+  cases hc : stepC idx s.arr s.cache c with
+  | none => simp [hc] at hsome
+  | some r =>
+    obtain ⟨ev, a', ch', c'⟩ := r
+    rw [step_iff.mpr ⟨c, a', ch', c', hi, hc, rfl⟩]
+    rfl
+
+/-! DiskCacher -/
+theorem write_failure_removes' (fs : Fs) (key : Nat) (w : Write)
+    (hw : (∃ b, w = .cutAfter b) ∨ w = .failBefore) (habs : fs key = none ∨ fs key = some []) :
+    (diskGetSet fs key w).2 = .raised ∧ (diskGetSet fs key w).1 key = none := by
+  rcases habs with h | h <;> rcases hw with ⟨b, rfl⟩ | rfl <;> simp [diskGetSet, h, upd]
+
+theorem zero_length_is_absent' (fs : Fs) (key : Nat) (w : Write) (h : fs key = some []) :
+    (diskGetSet fs key w).2 = (diskGetSet (upd fs key none) key w).2 ∧
+    (diskGetSet fs key w).1 key = (diskGetSet (upd fs key none) key w).1 key := by
+  cases w <;> simp [diskGetSet, h, upd]
+
+/-- an entry that is served is either one that was already complete on disk or the complete
+output of the writer; nothing is served after a failed write -/
+theorem disk_served_complete' (fs : Fs) (key : Nat) (w : Write) (bytes : List Nat)
+    (h : (diskGetSet fs key w).2 = .value bytes) :
+    (fs key = some bytes ∧ bytes ≠ []) ∨ w = .complete bytes := by
+  simp only [diskGetSet] at h
+  cases hk : fs key with
+  | none => cases w <;> simp_all [upd]
+  | some b =>
+    cases b with
+    | nil => cases w <;> simp_all [upd]
+    | cons x t => simp_all; left; rw [← h]; simp
+
+@[simp] theorem instrP_getSet (P : Nat → Nat → Prop) (k : Nat) (g : Getter) : instrP P (.getSet k g) = getterP P k g := by
+  cases g <;> rfl
+@[simp] theorem getterP_ok (P : Nat → Nat → Prop) (k v : Nat) : getterP P k (.ok v) = P k v := rfl
+
+theorem prov_toUnwind (P : Nat → Nat → Prop) (c : Caller) (h : ∀ seg ∈ c.rest, ∀ ins ∈ seg, instrP P ins) :
+    provC P (toUnwind c) := by
+  rcases toUnwind_eq c with hu | hu <;> rw [hu] <;> simp [provC] <;> exact h
+
+theorem lstep_prov {P : Nat → Nat → Prop} {idx arr cache c ev a' ch' c'} (h : LStep idx arr cache c ev a' ch' c')
+    (hc : provC P c) (hch : ∀ k v, cache k = some v → P k v) :
+    provC P c' ∧ (∀ k v, ch' k = some v → P k v) := by
+  cases h
+  all_goals (refine ⟨?_, ?_⟩)
+  all_goals (first
+    | exact hch
+    | exact prov_toUnwind P _ hc.2.1
+    | (simp [provC] at hc ⊢; grind)
+    | (simp [provC, upd] at hc ⊢; intro k v; split <;> simp_all)
+    | skip)
+  · intro hv; subst hv; exact hc.2.2
+  · intro k v hkv
+    simp only [upd] at hkv
+    split at hkv
+    · simp at hkv
+    · exact hch k v hkv
+
+/-- every value found in the cache, and hence every value a caller receives, is the complete
+result of a getter of the programs -/
+theorem prov_reachable {P : Nat → Nat → Prop} {idx : Nat → Nat} {progs : List (List (List Instr))} {s : St}
+    (hP : ∀ p ∈ progs, ∀ seg ∈ p, ∀ ins ∈ seg, instrP P ins) (h : Reachable idx progs s) :
+    (∀ (j : Nat) (c : Caller), s.cs[j]? = some c → provC P c) ∧ (∀ k v, s.cache k = some v → P k v) := by
+  induction h with
+  | init =>
+    constructor
+    · intro j c hj
+      have := List.mem_of_getElem? hj
+      simp [init] at this
+      obtain ⟨p, hpm, rfl⟩ := this
+      simp [provC, mkCaller]
+      exact hP p hpm
+    · intro k v hkv; simp [init] at hkv
+  | step hr hs ih =>
+    rename_i s0 s1 i ev
+    have hI := inv_reachable hr
+    obtain ⟨c, a', ch', c', hi, hc, rfl⟩ := step_iff.mp hs
+    have hL := stepC_sound idx s0.arr s0.cache c c' ev a' ch' hc (hI.book i c hi) (hI.pc i c hi) (hI.stack i c hi)
+    have hp := lstep_prov hL (ih.1 i c hi) ih.2
+    refine ⟨?_, hp.2⟩
+    intro j d hj
+    by_cases hji : j = i
+    · subst hji
+      have hlen : j < s0.cs.length := by
+        rcases Nat.lt_or_ge j s0.cs.length with h | h
+        · exact h
+        · simp [List.getElem?_eq_none h] at hi
+      simp [List.getElem?_set_self hlen] at hj
+      subst hj
+      exact hp.1
+    · simp only [] at hj
+      rw [List.getElem?_set_ne (Ne.symm hji)] at hj
+      exact ih.1 j d hj
+
+theorem mutual_exclusion' {idx : Nat → Nat} {progs : List (List (List Instr))} {s : St}
+    (h : Reachable idx progs s) {i j : Nat} {c d : Caller} {k : Nat}
+    (hi : s.cs[i]? = some c) (hj : s.cs[j]? = some d) (hne : j ≠ i) (hw : c.pc.writeKey = some k) :
+    (∀ k' ∈ c.reads, idx k' ≠ idx k) ∧ (∀ k' ∈ d.reads, idx k' ≠ idx k) ∧
+    (∀ k', d.pc.writeKey = some k' → idx k' ≠ idx k) := by
+  have := writer_excl (inv_reachable h).locks hi hw
+  exact ⟨this.1, (this.2 j d hne hj).1, (this.2 j d hne hj).2⟩
+
+theorem not_deadlocked_of_step {idx : Nat → Nat} {s : St}
+    (h : ∃ i ev s', step idx s i = some (ev, s') ∧ ev ≠ .spin) : s.deadlocked idx = false := by
+  obtain ⟨i, ev, s', hs, hne⟩ := h
+  have hlt : i < s.cs.length := by
+    obtain ⟨c, _, _, _, hi, _, _⟩ := step_iff.mp hs
+    rcases Nat.lt_or_ge i s.cs.length with h | h
+    · exact h
+    · simp [List.getElem?_eq_none h] at hi
+  simp only [St.deadlocked, Bool.and_eq_false_iff]
+  right
+  apply List.all_eq_false.mpr
+  refine ⟨i, List.mem_range.mpr hlt, ?_⟩
+  simp [hs, hne]
+
+theorem deadlock_free_partial' {idx : Nat → Nat} {progs : List (List (List Instr))} {s : St}
+    (hH : ∀ p ∈ progs, Hier idx p = true) (h : Reachable idx progs s) (hnt : s.allTerminal = false) :
+    ∃ i ev s', step idx s i = some (ev, s') ∧ ev ≠ .spin :=
+  deadlock_free_core (inv_reachable h) (hier_reachable hH h) hnt
+
+theorem never_deadlocked' {idx : Nat → Nat} {progs : List (List (List Instr))} {s : St}
+    (hH : ∀ p ∈ progs, Hier idx p = true) (h : Reachable idx progs s) : s.deadlocked idx = false := by
+  cases ht : s.allTerminal with
+  | true => simp [St.deadlocked, ht]
+  | false => exact not_deadlocked_of_step (deadlock_free_partial' hH h ht)
+
+def cexIdx : Nat → Nat := fun k => k
+def cexProgs : List (List (List Instr)) :=
+  [[[.getSet 0 (.ok 1), .rmv 1]], [[.getSet 1 (.ok 2), .rmv 0]]]
+def cexSched : List Nat := List.replicate 10 0 ++ List.replicate 10 1 ++ [0, 0, 0, 1, 1, 1]
+
+theorem cross_nesting_counterexample' :
+    (∀ p ∈ cexProgs, WellNested cexIdx p = true) ∧
+    (run cexIdx (init cexProgs) cexSched).1.deadlocked cexIdx = true := by
+  constructor
+  · decide
+  · decide
+
+def selfProgs : List (List (List Instr)) := [[[.getSet 0 (.ok 1), .getSet 1 (.ok 2)]]]
+theorem nested_collision_counterexample' :
+    (run (fun _ => 0) (init selfProgs) (List.replicate 18 0)).1.deadlocked (fun _ => 0) = true := by
+  decide
+
+theorem single_flight' {idx : Nat → Nat} {progs : List (List (List Instr))} {s s' : St} {i : Nat} {ev : Ev} {k : Nat}
+    (h : Reachable idx progs s) (hs : step idx s i = some (ev, s')) (hev : (∃ v, ev = .cpop k v) ∨ ev = .cpopFail k) :
+    s.cache k = none := by
+  obtain ⟨c, _, _, _, h3, h4, _⟩ := step_facts (inv_reachable h) hs
+  rcases hev with ⟨v, rfl⟩ | rfl
+  · exact (h3 k v rfl).2.1
+  · exact (h4 k rfl).2.1
+
+theorem single_flight_trace_init (idx : Nat → Nat) (progs : List (List (List Instr))) (sched : List Nat) (k : Nat) :
+    popCount k (run idx (init progs) sched).2 =
+      rmvCount k (run idx (init progs) sched).2 + cachedN (run idx (init progs) sched).1.cache k := by
+  have := single_flight_trace' (idx := idx) k sched (init progs) (inv_init idx progs)
+  simpa [cachedN, init] using this
+
+theorem complete_values' {idx : Nat → Nat} {progs : List (List (List Instr))} {s s' : St} {i : Nat} {k v : Nat}
+    (h : Reachable idx progs s) (hs : step idx s i = some (.enter k v, s')) : s.cache k = some v := by
+  obtain ⟨c, _, _, h2, _⟩ := step_facts (inv_reachable h) hs
+  exact (h2 k v rfl).2
+
+theorem getter_failure_clean' {idx : Nat → Nat} {progs : List (List (List Instr))} {s s' : St} {i k : Nat}
+    (h : Reachable idx progs s) (hs : step idx s i = some (.cpopFail k, s')) :
+    s'.cache = s.cache ∧ s'.cache k = none := by
+  obtain ⟨c, _, _, _, _, h4, _⟩ := step_facts (inv_reachable h) hs
+  have := h4 k rfl
+  exact ⟨this.2.2, by rw [this.2.2]; exact this.2.1⟩
 end Coba.C19
